@@ -229,3 +229,47 @@ func H_C07_doc_and_trailing() {
 	vAssert(err == nil && out3 == out1, "C07 doc+trailing: third run leaves the file unchanged")
 	vReach("end")
 }
+
+// a field whose type is an anonymous struct: annotations on the nested fields and on the enclosing field
+// (the file converges after the first run whatever the tool makes of the nested ones)
+func H_C07_nested_anonymous() {
+	v := vTagVal("v", 2, true)
+	mk := func(outer, inner string) []vStructSrc {
+		return []vStructSrc{{name: "A", fields: []vField{
+			{name: "Buyer", hasTag: true, tag: outer, comment: "// @tag valid:\"" + v + "\"", sub: []vField{
+				{name: "Name", typ: "string", hasTag: true, tag: inner, comment: "// @tag valid:\"required\""},
+				{name: "Age", typ: "int"},
+			}},
+			{name: "Z", typ: "int", hasTag: true, tag: "json:\"z\"", comment: "// @tag valid:\"ge=1\""},
+		}}}
+	}
+	src, f := vBuildSource("", mk("json:\"buyer\"", "json:\"name\""), "")
+	out1, err := vRunInjector("n.go", src, f)
+	vAssert(err == nil, "C07 nested anonymous struct: first run succeeds")
+	// the processed file as the parser sees it: which literals changed is read back from the output
+	cands := [][2]string{
+		{"json:\"buyer\" valid:\"" + v + "\"", "json:\"name\""},
+		{"json:\"buyer\" valid:\"" + v + "\"", "json:\"name\" valid:\"required\""},
+		{"json:\"buyer\"", "json:\"name\" valid:\"required\""},
+		{"json:\"buyer\"", "json:\"name\""},
+	}
+	hit := -1
+	for i, c := range cands {
+		st := mk(c[0], c[1])
+		st[0].fields[1].tag = "json:\"z\" valid:\"ge=1\""
+		s2, _ := vBuildSource("", st, "")
+		if s2 == out1 {
+			hit = i
+		}
+	}
+	vAssert(hit >= 0, "C07 nested anonymous struct: the first run changes tag literals only")
+	if hit < 0 {
+		return
+	}
+	st := mk(cands[hit][0], cands[hit][1])
+	st[0].fields[1].tag = "json:\"z\" valid:\"ge=1\""
+	src2, f2 := vBuildSource("", st, "")
+	out2, err := vRunInjector("n.go", src2, f2)
+	vAssert(err == nil && out2 == out1, "C07 nested anonymous struct: second run leaves the file byte-for-byte unchanged")
+	vReach("end")
+}
